@@ -585,6 +585,10 @@ func init() {
 			runPeerEdgeConc(t, rc)
 			return
 		}
+		if rc.Param("mode", "") == "realnet" {
+			runRealNet(t, rc, "C16")
+			return
+		}
 		runDKGCallers(t, rc)
 	}
 }
